@@ -316,6 +316,24 @@ impl std::fmt::Write for BoundedWriter {
     }
 }
 
+/// A sink that, on its first write_str, formats another range to a String
+/// (Display re-entered from inside Display) and then just collects the text.
+struct ReentrantWriter<'a> {
+    out: String,
+    other: &'a HandRange,
+    done: bool,
+}
+impl std::fmt::Write for ReentrantWriter<'_> {
+    fn write_str(&mut self, s: &str) -> std::fmt::Result {
+        if !self.done {
+            self.done = true;
+            let _ = self.other.to_string();
+        }
+        self.out.push_str(s);
+        Ok(())
+    }
+}
+
 impl Case {
     pub fn to_json(&self) -> Value {
         json!({"kind":"c17", "histories": self.histories.iter().map(|h| h.to_json()).collect::<Vec<_>>(),
@@ -368,6 +386,7 @@ pub struct CaseResult {
 pub fn check_case(case: &Case) -> CaseResult {
     let built: Vec<HandRange> = case.histories.iter().map(|h| h.build()).collect();
     let mut writer_errors_fired = 0u64;
+    let mut repeat_problem: Option<String> = None;
     let mut texts: Vec<Result<String, String>> = vec![];
     for (i, r) in built.iter().enumerate() {
         for (at, which, limit) in &case.writer_faults {
@@ -387,7 +406,32 @@ pub fn check_case(case: &Case) -> CaseResult {
         if texts.len() > i {
             continue;
         }
-        texts.push(crate::evalrun::guarded(|| r.to_string()));
+        let first = crate::evalrun::guarded(|| r.to_string());
+        // the same object formatted again, and once through a sink that formats
+        // *another* range from inside its write_str (re-entrant Display): all three
+        // texts of one object must be the same
+        if let Ok(t1) = &first {
+            let again = crate::evalrun::guarded(|| r.to_string());
+            let other = &built[(i + 1) % built.len()];
+            let nested = crate::evalrun::guarded(|| {
+                use std::fmt::Write;
+                let mut w = ReentrantWriter { out: String::new(), other, done: false };
+                let _ = write!(w, "{}", r);
+                w.out
+            });
+            for (what, t) in [("formatted a second time", &again), ("formatted through a writer that formats another range inside write_str", &nested)] {
+                match t {
+                    Ok(t2) if t2 == t1 => {}
+                    Ok(t2) => {
+                        repeat_problem = repeat_problem.or(Some(format!("history #{i} {}: the same range object {what} gives '{}' instead of '{}'", recipe_short(&case.histories[i]), abbreviate(t2), abbreviate(t1))));
+                    }
+                    Err(m) => {
+                        repeat_problem = repeat_problem.or(Some(format!("history #{i}: {what} panicked: {m}")));
+                    }
+                }
+            }
+        }
+        texts.push(first);
     }
     let fps: Vec<u64> = built.iter().map(order_fingerprint).collect();
     let distinct_orders: BTreeSet<u64> = fps.iter().cloned().collect();
@@ -416,6 +460,11 @@ pub fn check_case(case: &Case) -> CaseResult {
         }
     }
     let texts: Vec<String> = texts.into_iter().map(|t| t.unwrap()).collect();
+    if let Some(d) = repeat_problem {
+        res.key = Some(("same_object_formats_differently".into(), d));
+        res.texts = texts;
+        return res;
+    }
     // 1. canonical text for equal ranges
     for i in 0..built.len() {
         for j in (i + 1)..built.len() {
